@@ -408,16 +408,14 @@ class EntrySpec(FnContract):
 def tasks(engine):
     out = []
     src = engine.src
-    out.append(check_array_size_task(engine))
-    out.append(cap_constant_task(engine))
-    out.append(keycast_task(engine, '_list_key_cast', ListKeyCast))
-    out.append(keycast_task(engine, '_dict_key_cast', DictKeyCast))
-    out.append(keycast_task(engine, '_key_cast', KeyCast, with_container=True))
-    t = multiply_task(engine)
-    if t:
-        out.append(t)
-    out.append(safe_cast_task(engine))
-    out.append(parse_flags_task(engine))
+    add_task(engine, out, lambda: check_array_size_task(engine))
+    add_task(engine, out, lambda: cap_constant_task(engine))
+    add_task(engine, out, lambda: keycast_task(engine, '_list_key_cast', ListKeyCast))
+    add_task(engine, out, lambda: keycast_task(engine, '_dict_key_cast', DictKeyCast))
+    add_task(engine, out, lambda: keycast_task(engine, '_key_cast', KeyCast, with_container=True))
+    add_task(engine, out, lambda: multiply_task(engine))
+    add_task(engine, out, lambda: safe_cast_task(engine))
+    add_task(engine, out, lambda: parse_flags_task(engine))
     for name in src.functions_table:
         st = entry_static(engine, name)
         label = MOD + 'FUNCTIONS[%r]' % name
